@@ -17,9 +17,213 @@ static void put_min(vh::Out& o, Minimization& m, const std::vector<double>& pmin
 	o.i(m.nfunc);
 	put_table(o, trace);
 }
+static bool same_d(double a, double b) { return a == b || (a != a && b != b); }
+static bool same_v(const std::vector<double>& a, const std::vector<double>& b)
+{
+	if(a.size() != b.size())
+		return false;
+	for(size_t i = 0; i < a.size(); i++)
+		if(!same_d(a[i], b[i]))
+			return false;
+	return true;
+}
+static bool same_t(const std::vector<std::vector<double>>& a, const std::vector<std::vector<double>>& b)
+{
+	if(a.size() != b.size())
+		return false;
+	for(size_t i = 0; i < a.size(); i++)
+		if(!same_v(a[i], b[i]))
+			return false;
+	return true;
+}
+// one request to Minimization::minimize (the three overloads) without the tolerance, which belongs to the object
+struct NmCall
+{
+	std::string kind;
+	std::vector<std::vector<double>> pp;
+	std::vector<double> start, deltas;
+	double delta = 0;
+	void read(const std::string& k, vh::Reader& r)
+	{
+		kind = k;
+		if(kind == "nm")
+			pp = r.table();
+		else
+		{
+			start = r.list();
+			if(kind == "nmd")
+				deltas = r.list();
+			else
+				delta = r.num();
+		}
+	}
+	std::vector<double> run(Minimization& m, std::function<double(std::vector<double>)> g)
+	{
+		std::vector<std::vector<double>> pc = pp;	// the library takes non-const references: every run gets its own copies
+		std::vector<double> sc = start, dc = deltas;
+		if(kind == "nm")
+			return m.minimize(pc, g);
+		if(kind == "nmd")
+			return m.minimize(sc, dc, g);
+		return m.minimize(sc, delta, g);
+	}
+};
+// seq: several calls in one process, on one or several Minimization objects (and 1-D calls in between); every Nelder-Mead call is
+// repeated on a fresh object and compared bit for bit (token `same`)
+static void handle_seq(vh::Reader& r, vh::Out& o)
+{
+	long nobj = r.integer();
+	std::vector<std::unique_ptr<Minimization>> objs;
+	std::vector<double> ftols;
+	for(long k = 0; k < nobj; k++)
+	{
+		ftols.push_back(r.num());
+		objs.emplace_back(new Minimization(ftols.back()));
+	}
+	long ncalls = r.integer();
+	for(long c = 0; c < ncalls; c++)
+	{
+		long ob			 = r.integer();
+		std::string kind = r.word();
+		o.w("C");
+		if(kind == "fmin" || kind == "fmax")
+		{
+			double xl = r.num(), xr = r.num(), tol = r.num();
+			auto f = vh::fun1(vh::parse_fexpr(r));
+			std::vector<double> trace;
+			std::function<double(double)> g = [&](double x) {
+				trace.push_back(x);
+				return f(x);
+			};
+			double res = kind == "fmin" ? Find_Minimum(g, xl, xr, tol) : Find_Maximum(g, xl, xr, tol);
+			o.f(res);
+			o.fl(trace);
+			continue;
+		}
+		NmCall call;
+		call.read(kind, r);
+		auto e = vh::parse_fexpr(r);
+		std::vector<std::vector<double>> trace, trace2;
+		std::function<double(std::vector<double>)> g = [&](std::vector<double> x) {
+			trace.push_back(x);
+			return vh::eval_fexpr(*e, x.data());
+		};
+		std::function<double(std::vector<double>)> g2 = [&](std::vector<double> x) {
+			trace2.push_back(x);
+			return vh::eval_fexpr(*e, x.data());
+		};
+		Minimization& m			 = *objs.at(ob);
+		std::vector<double> pmin = call.run(m, g);
+		put_min(o, m, pmin, trace);
+		Minimization fresh(ftols.at(ob));
+		std::vector<double> pmin2 = call.run(fresh, g2);
+		bool same = same_v(pmin, pmin2) && same_d(m.fmin, fresh.fmin) && same_v(m.y, fresh.y) && same_t(m.current_simplex, fresh.current_simplex) && m.nfunc == fresh.nfunc && same_t(trace, trace2);
+		o.i(same ? 1 : 0);
+	}
+}
+// nest: the objective of the outer minimisation is itself computed by a minimisation, F(x) = min_z g(x, z)
+static void handle_nest(vh::Reader& r, vh::Out& o)
+{
+	std::string outer = r.word();
+	double ftol = 0, xl = 0, xr = 0, tol = 0;
+	NmCall call;
+	if(outer == "fmin")
+	{
+		xl	= r.num();
+		xr	= r.num();
+		tol = r.num();
+	}
+	else
+	{
+		ftol = r.num();
+		call.read(outer, r);
+	}
+	std::string inner = r.word();
+	double ftol_in = 0, din = 0, zl = 0, zr = 0, tol_in = 0;
+	long shared = 0;
+	std::vector<double> z0;
+	if(inner == "nm1")
+	{
+		ftol_in = r.num();
+		z0		= r.list();
+		din		= r.num();
+		shared	= r.integer();
+	}
+	else
+	{
+		zl	   = r.num();
+		zr	   = r.num();
+		tol_in = r.num();
+	}
+	auto e = vh::parse_fexpr(r);
+	Minimization inner_shared(ftol_in);
+	// F(x), by the library
+	auto F = [&](const std::vector<double>& x) -> double {
+		if(inner == "nm1")
+		{
+			std::function<double(std::vector<double>)> gz = [&](std::vector<double> z) {
+				std::vector<double> v = x;
+				v.insert(v.end(), z.begin(), z.end());
+				return vh::eval_fexpr(*e, v.data());
+			};
+			std::vector<double> zc = z0;
+			if(shared)
+			{
+				inner_shared.minimize(zc, din, gz);
+				return inner_shared.fmin;
+			}
+			Minimization mi(ftol_in);
+			mi.minimize(zc, din, gz);
+			return mi.fmin;
+		}
+		std::function<double(double)> gz = [&](double z) {
+			std::vector<double> v = x;
+			v.push_back(z);
+			return vh::eval_fexpr(*e, v.data());
+		};
+		double zm = Find_Minimum(gz, zl, zr, tol_in);
+		return gz(zm);
+	};
+	std::vector<double> vals;
+	if(outer == "fmin")
+	{
+		std::vector<double> trace;
+		std::function<double(double)> g = [&](double x) {
+			trace.push_back(x);
+			double v = F(std::vector<double>(1, x));
+			vals.push_back(v);
+			return v;
+		};
+		double res = Find_Minimum(g, xl, xr, tol);
+		o.f(res);
+		o.fl(trace);
+		o.fl(vals);
+		o.f(F(std::vector<double>(1, res)));
+		return;
+	}
+	std::vector<std::vector<double>> trace;
+	std::function<double(std::vector<double>)> g = [&](std::vector<double> x) {
+		trace.push_back(x);
+		double v = F(x);
+		vals.push_back(v);
+		return v;
+	};
+	Minimization m(ftol);
+	std::vector<double> pmin = call.run(m, g);
+	put_min(o, m, pmin, trace);
+	o.fl(vals);
+	std::vector<double> fy;	  // the objective, evaluated again at the vertices of the reported simplex
+	for(auto& row : m.current_simplex)
+		fy.push_back(F(row));
+	o.fl(fy);
+}
 static void handler(vh::Reader& r, vh::Out& o)
 {
 	std::string op = r.word();
+	if(op == "seq")
+		return handle_seq(r, o);
+	if(op == "nest")
+		return handle_nest(r, o);
 	if(op == "fmin" || op == "fmax" || op == "fmin_default" || op == "fmax_default")
 	{
 		double xl = r.num(), xr = r.num();
